@@ -25,7 +25,7 @@ CLAIMED.update({
    technique="deterministic simulation: seeded segmentation/partial-transfer search with a position-dependent byte generator",
    text="Stream objects (dialed, accepted, AsyncAdapter) against raw actor peers, both directions at once; socket buffer capacities drawn down to 1 byte, deliveries segmented, kernel short reads/writes, delays, peer FIN/close/RST in the middle of *All operations. "
         "Oracle: per-direction offset ledger with a position-dependent generator (any slice identifies its own offset): delivered bytes equal what the peer wrote at that offset, counts equal the bytes the stub kernel moved for that operation, "
-        "*All success implies the full length, on error n <= bytes moved and - for reads - n == bytes moved (bytes taken out of the stream and not reported are lost); the adapter's reader may hand the last bytes over together with io.EOF and its writer may accept a prefix, no error on a healthy stream, the peer verifies every byte it receives, conservation at quiescence.",
+        "*All success implies the full length, on error n <= bytes moved and - for reads - n == bytes moved (bytes taken out of the stream and not reported are lost); the adapter's reader may hand the last bytes over together with io.EOF and its writer may accept a prefix, no error on a healthy stream, the peer verifies every byte it receives, conservation at quiescence. Second scenario (byte_buffer.go is an anchor): the stream is queued in a sonic.ByteBuffer and moved with WriteTo/AsyncWriteTo and ReadFrom/AsyncReadFrom over the same three connection kinds with kernel buffers of 7 B..64 KiB, so that would-block cuts a transfer and the buffer carries the rest into the next call; what a call reports must be what left (entered) the buffer and the peer must receive the stream exactly once.",
    note="The kernel's per-descriptor byte counters are the independent observer. AsyncAdapter's peer always drains (net.Conn.Write blocks the loop by design)."),
  "C03": dict(
    technique="deterministic simulation: seeded history search with an in-flight ledger, RunPending under a quiescence detector",
@@ -43,7 +43,7 @@ CLAIMED["C05"] = dict(
    technique="deterministic simulation: seeded interleaving search with parked goroutines + race detector on the same schedules",
    text="1-4 posting goroutines and the loop goroutine run as scheduler-controlled tasks: every kernel call and every Mutex.Lock/Unlock is a yield point and the tape chooses who continues, "
         "which reaches the append/eventfd-write and drain/run windows. Oracle: every handler exactly once, on the loop task, per-poster FIFO order, Post always returns, the world never goes quiescent "
-        "with a handler un-run (lost wake-up) or a task stuck on the mutex (deadlock, including handlers that post), Pending()/Posted() exact at quiescence. Half of the workers run the same generator "
+        "with a handler un-run (lost wake-up) or a task stuck on the mutex (deadlock, including handlers that post), Pending()/Posted() exact at quiescence, and Pending() read from inside every posted handler (the loop is then in the middle of a batch) within the bounds the ledger gives: Post calls returned/started minus handlers finished, plus loop operations armed. Half of the workers run the same generator "
         "on a race-detector build in which only sonic is instrumented and the baton between tasks is a raw pipe the detector cannot see: a report is a violation with the tape attached.",
    note="The scheduler-aware sync.Mutex shim is backed by a real mutex so lock edges stay visible to the detector; the shim's Read/Write reproduce the acquire/release edges of syscall.Read/Write. checkptr is disabled in the race build (sonic's epoll user-data cast).")
 CLAIMED["C18"] = dict(
@@ -61,18 +61,18 @@ CLAIMED["C06"] = dict(
    note="Equality with the sent sequence under every API implies the differential clause. Sizes above 256 KiB are not generated. Asynchronous reads are also re-issued from inside the completion; in a third of the random runs the peer ends the stream right behind its last frame and the transport may report that end together with the last bytes (as tls.Conn does).")
 CLAIMED["C07"] = dict(
    technique="deterministic simulation of the read path (CodecConn over a scripted transport) with in-transit corruption, differential against a reference decoder; plus exhaustive enumeration of the encoder/decoder product",
-   text="Conforming frame streams are corrupted in transit (bit flips, rewritten length fields incl. 64-bit lengths with the top bit set and max+1, truncation, inserted garbage, pure random prefixes) and delivered under two tape-chosen segmentations (incl. byte-by-byte); "
+   text="Conforming frame streams are corrupted in transit (bit flips, rewritten length fields incl. 64-bit lengths with the top bit set and max+1, truncation, inserted garbage, pure random prefixes) and delivered under two tape-chosen segmentations (incl. byte-by-byte); a sixth of the frames end within 20 bytes of a size the read buffer has or grows to (4096, 8192, ...); "
         "an independent reference decoder applied to the post-fault bytes says frame / need-more / too-big for each position and sonic must agree on boundaries and contents, reject over-max declared lengths without buffering for them (source buffer capacity bounded), give the same outcomes under both segmentations and never panic. "
         "Directed run: all 5120 combinations FIN x RSV x opcode x mask x 10 length classes through Encode then Decode must be the identity (exhaustive enumeration, not simulation).",
    note="The decoder does not judge RFC conformance of opcodes/RSV (that is the stream layer, C15). After the first error outcome the run stops (decoder state after an error is unspecified).")
 CLAIMED["C15"] = dict(
    technique="deterministic simulation: single-violation mutation of generated sessions, seeded position/segmentation, four read APIs, two transports",
-   text="C06's generator plus exactly one mutation (RSV bit, reserved data/control opcode, masked frame, FIN-less control, control payload 126+, continuation with nothing to continue, data frame inside a fragmented message, frame over the maximum, message over the maximum) at a tape-chosen frame. "
-        "Oracle: messages before it are delivered unchanged, the read that meets it reports an error, nothing of it is delivered as data, no panic; after a framing violation Write/AsyncWrite/WriteFrame are refused and the next flush puts a Close with status 1002 (checked with the independent parser, no data frame after it) on the wire.",
+   text="C06's generator plus exactly one mutation (RSV bit, reserved data/control opcode, masked frame, FIN-less control, control payload 126+, continuation with nothing to continue, data frame inside a fragmented message, frame over the maximum, message over the maximum) at a tape-chosen frame; in a quarter of the random runs and half of the directed ones the client has already sent its own Close and is reading for the peer's when the sequence arrives. "
+        "Oracle: messages before it are delivered unchanged, the read that meets it reports an error, nothing of it is delivered as data, no panic; after a framing violation Write/AsyncWrite/WriteFrame are refused and the next flush puts a Close with status 1002 (checked with the independent parser, no data frame after it) on the wire - or, when the client's Close had gone out before, exactly that one Close frame.",
    note="Frames after the violating one are not judged (the statement does not). Fragmentation-rule violations are generated only for the message-level APIs.")
 CLAIMED["C16"] = dict(
    technique="deterministic simulation: seeded write histories over transports with scripted partial-write behaviour, independent wire parser",
-   text="Histories of Write/AsyncWrite (0,1,125,126,65535,65536,max,max+1,random sizes so pooled frames are reused after longer and shorter ones; directed: all ordered pairs of 6 size classes), WriteFrame/AsyncWriteFrame with caller-built frames with and without SetPayload, "
+   text="Histories of Write/AsyncWrite (0,1,125,126,65535,65536,max,max+1,random sizes so pooled frames are reused after longer and shorter ones, and sizes that make the encoded frame end within 20 bytes of the end of the stream's write buffer, whatever it has grown to; directed: all ordered pairs of 6 size classes), WriteFrame/AsyncWriteFrame with caller-built frames with and without SetPayload, "
         "pings that elicit automatic Pongs, Close, with the deterministic frame pool emptied at tape-chosen moments; transports: production stack with small send buffers/short writes and the scripted stream accepting 1..n bytes or deferring. "
         "Oracle: the complete outgoing byte stream parses (independent RFC 6455 parser) into exactly the submitted frames in order: mask bit, 4-byte key, un-masked payload equal to the caller's bytes, minimal length encoding, no trailing bytes; an over-max message returns an error and writes nothing.",
    note="Besides single writes: chains started from the previous completion, bursts of 3-6 writes submitted back to back, writes accepted in parts by the transport, and one asynchronous write failing with a transient error (the wire is then judged as an in-order subsequence of well-formed masked frames). A would-block from a synchronous Write is not generated. An all-zero masking key is not judged (the statement does not require unpredictability).")
@@ -104,7 +104,7 @@ CLAIMED["C13"] = dict(
    category="fault_enumeration",
    technique="deterministic simulation with enumerated fault injection: every k-th kernel call of every kind of each constructor is failed; descriptor census by generation; GC injected at chosen instants",
    text="Fault enumeration over 12 constructors (NewIO, NewTimer, Dial tcp/udp, Listen, accept sync+async, NewPacketConn, NewUDPPeer, Open, websocket Handshake and AsyncHandshake, NewMirroredBuffer on the real kernel): the successful build is measured and every k-th call of every kind it makes is failed once (EMFILE at the k-th allocation for every k, realistic errnos otherwise), "
-        "plus refused/unreachable/time-out/bind conflict/non-local bind/bad, truncated or wrong-key handshake response/server close or reset mid-handshake. The stub kernel's exact census (number:kind:generation) must be what it was before after a failure, and after Close of a success. "
+        "plus refused/unreachable/time-out/bind conflict/non-local bind/bad, truncated or wrong-key handshake response/server close or reset mid-handshake. The stub kernel's exact census (number:kind:generation) must be what it was before after a failure, and after Close of a success. Both handshake constructors repeat the whole enumeration on one Stream that has had a complete session before every failing attempt. "
         "Seeded exploration on top: repeated Close (and Cancel-after-Close, conn-close-after-adapter-close) on every object kind interleaved with creation of other objects so that numbers are reused - any close of a generation the object does not own is flagged; and GC at tape-chosen instants with reads and/or writes deferred after the program dropped every reference (weak pointer to a sentinel captured only by the callbacks), including between the completion of one direction and the other, with the completion required afterwards.",
    note="Fault points are enumerated over the kernel calls the stub sees, not over Go allocations. Constructors are built with options so that every socket option is a fault point; one scenario reconnects from inside a completion handler (close, dial, deferred read on the reused descriptor number, no reference kept) before the collection. The stub net.Conn models RawConn.Control's descriptor reference (a Close inside the callback blocks, as on the live runtime).")
 CLAIMED["C09"] = dict(
@@ -114,7 +114,7 @@ CLAIMED["C09"] = dict(
    note="Honest scope: apart from the I/O methods (simulated transports with faults and deferred completions) this is sequential model conformance, not schedule exploration. Reserve is exercised up to 1 MiB. Slot arguments are always slots the buffer handed out. While an asynchronous transfer is in flight only getters are called. UnreadByte is not in the property's list and not exercised.")
 CLAIMED["C20"] = dict(
    technique="deterministic simulation of a sequenced multicast feed (loss, duplication, reordering, delay, retransmission after a virtual time-out) driving the park/pop/discard pipeline, map model as oracle",
-   text="1-3 channels of packets (seq, payload=g(channel, seq)) published over simulated multicast with loss, duplication, reordering and delay; a retransmission actor fills gaps later; the receiver parks every out-of-order packet in a ByteBuffer save area indexed by a SlotSequencer (1 in 4 runs: bare SlotOffsetter), pops and discards when the gap closes, and expires tape-chosen parked packets in any order; slot and byte capacities are drawn small, and a long-lived gap keeps one sequencer non-empty while others drain repeatedly. "
+   text="1-3 channels of packets (seq, payload=g(channel, seq)) published over simulated multicast with loss, duplication, reordering and delay; a retransmission actor fills gaps later; the receiver parks every out-of-order packet in a ByteBuffer save area indexed by a SlotSequencer with a slot limit of 2, 4, 8, 32 or any number in 1..60 and a byte limit of 256 B..64 KiB (1 in 4 runs: bare SlotOffsetter), pops and discards when the gap closes, and expires tape-chosen parked packets in any order; slot and byte capacities are drawn small, and a long-lived gap keeps one sequencer non-empty while others drain repeatedly. "
         "Oracle after every call: Pop succeeds iff parked; the returned slot addresses exactly the bytes saved under that number before its Discard; afterwards Saved() is the concatenation of the remaining parked packets in save order; duplicates return (false, nil) and change nothing; capacity overruns return an error and change nothing; Bytes()/Size() equal the model; the application receives every sequence number once, in order, intact.",
    note="A Push refused with ErrNoSpaceLeftForSlot below the byte capacity is tolerated only when the bytes pushed since the sequencer was last empty reach maxBytes (the offsetter's index space), and counted by a probe.")
 CLAIMED["C10"] = dict(
